@@ -6,6 +6,7 @@ import (
 	"flag"
 	"fmt"
 	"os"
+	"os/exec"
 	"path/filepath"
 	"sort"
 	"strconv"
@@ -597,6 +598,30 @@ func cmdCheck(args []string) {
 			violations = append(violations, rec)
 		}
 	}
+	// thorough tier: the must-fail corpus restricted to the functions of this property (vacuity guard)
+	var mustFail map[string]interface{}
+	if *tier == "thorough" && os.Getenv("VF_NO_SELFTEST") == "" {
+		var fns []string
+		for k := range funcsUnder {
+			fns = append(fns, k)
+		}
+		sort.Strings(fns)
+		cmd := exec.Command(filepath.Join(verifDir, "selftest", "run.sh"))
+		cmd.Env = append(os.Environ(), "MUTANT_FUNCS="+strings.Join(fns, ","))
+		out, _ := cmd.CombinedOutput()
+		killed, survived := 0, []string{}
+		for _, l := range strings.Split(string(out), "\n") {
+			if strings.HasPrefix(l, "killed") {
+				killed++
+			} else if strings.HasPrefix(l, "SURVIVED") || strings.HasPrefix(l, "MUTANT-") {
+				survived = append(survived, l)
+			}
+		}
+		mustFail = map[string]interface{}{"mutants_killed": killed, "not_killed": survived, "corpus": "selftest/mutants.tsv restricted to the functions under contract of this property"}
+		for _, sline := range survived {
+			fmt.Println("SELFTEST-SURVIVOR (check machinery, not the repository): " + sline)
+		}
+	}
 	wall := time.Since(t0).Seconds()
 	level := "proof"
 	var fu []string
@@ -622,6 +647,7 @@ func cmdCheck(args []string) {
 		"known_findings":           known,
 		"not_proved":               notProved,
 		"bounded_standins":         standinResults,
+		"must_fail_corpus":         mustFail,
 		"explanation":              "obligations are generated from the current /repo sources (go/ast + go/types, contracts in */contracts_verif.go) and discharged by SMT solvers; 'obligations' counts those claimed (in obligations.lock or new); 'not_proved' lists generated obligations that are not claimed (undecided.txt)",
 	}
 	if nObl == 0 || nDis == 0 {
